@@ -360,6 +360,12 @@ def run_hypothesis(ctx, sub, strategy, prop, max_examples, rounds=3, shrink_budg
         case, failure, _ = state['best']
         ctx.violation(sub, case, failure)
     if min_class_fraction:
+        check_class_fractions(ctx, sub, min_class_fraction)
+
+
+def check_class_fractions(ctx, sub, min_class_fraction):
+    """a class the property singles out that is hardly realised means the generator is wrong: harness error, not a pass"""
+    if True:
         n = ctx.sub.get(sub, {}).get('evaluations', 0)
         for cls, frac in min_class_fraction.items():
             got = ctx.classes.get(sub + ':' + cls, 0)
